@@ -322,7 +322,12 @@ int *hops;
         break;
       case 1: /* \r\n */
         if (ch == '\n') straynewline();
-        if (ch == '.') { state = 2; continue; }
+        if (ch == '.') {
+          state = 2;
+          /* the dot is removed from the stored line: match the header fields after it */
+          if (flaginheader) { pos = 0; flagmaybex = flagmaybey = flagmaybez = 1; }
+          continue;
+        }
         if (ch == '\r') { state = 4; continue; }
         state = 0;
         break;
